@@ -41,7 +41,9 @@ class World:
     def apply_op(self, model, op):
         """population operation through the repository's public API"""
         kind = op["op"]
-        if kind == "create":
+        if kind == "stop_run":
+            model.scheduler.running = False     # how a run is cancelled: the scheduler's public flag
+        elif kind == "create":
             model.create_agent(op["type"], op.get("properties"))
         elif kind == "create_many":
             model.create_agents({"name": op["type"], "count": op["count"], "properties": op.get("properties")})
